@@ -19,13 +19,13 @@ func init() {
 		ID: "C03", Level: "exploration", Primary: "cases", EvalCount: "requests_routed",
 		Rule: "route tables = every sequence of up to k routes (k=2 quick, 3 thorough) over a 15-spec alphabet (bind; search with base in {unset,dc=a} x filter in {unset,(cn=x)} x scope in {unset,2}; " +
 			"extended A/B/StartTLS-name; modify; add; delete) x {no default, default, default registered twice} x {no unbind route, unbind registered twice}, plus random tables up to length 8 with case variants and scope 1; " +
-			"each table is served on a fresh connection the full 34-request alphabet (bind; search over 3 bases x 3 filters x 3 scopes; extended A/B/C; modify; add; delete) plus Unbind, all pipelined; every fifth table is served over a TLS listener; in every fifth table the route handlers (except those of StartTLS-named routes, which run on the read loop) panic right after they have answered. " +
+			"each table is served on a fresh connection the full 34-request alphabet (bind; search over 3 bases x 3 filters x 3 scopes; extended A/B/C; modify; add; delete) plus Unbind, all pipelined; every fifth table is served over a TLS listener, every fifth on a server created WithDisablePanicRecovery, and every other table spells a zero scope out as WithScope(BaseObject); in every fifth table the route handlers (except those of StartTLS-named routes, which run on the read loop) panic right after they have answered. " +
 			"Oracle: 15-line reference model (first matching route, else last-registered default, else built-in refusal). distinct_nontrivial = distinct (route-table signature, request, outcome) triples observed",
 		Assume: []string{"re-registering the default or unbind route replaces the earlier registration (last registration wins)"},
 		Phases: func(tier string, seed int64) []Phase {
 			return []Phase{{Name: "tables", Run: c03Tables}, {Name: "goldap-noroute", Run: c03GoLDAP}}
 		},
-		MinObserved: []string{"requests_routed", "outcome/builtin", "outcome/default", "outcome/first_of_several", "outcome/shadowed_later_route", "tables_over_tls", "tables_whose_route_handlers_panic_after_replying", "requests_carrying_controls"},
+		MinObserved: []string{"requests_routed", "outcome/builtin", "outcome/default", "outcome/first_of_several", "outcome/shadowed_later_route", "tables_over_tls", "tables_whose_route_handlers_panic_after_replying", "requests_carrying_controls", "tables_on_a_server_without_panic_recovery", "search_routes_registered_with_an_explicit_zero_scope"},
 	})
 }
 
@@ -201,10 +201,12 @@ var c03TableCtr, c03WithControls atomic.Int64
 
 func c03RunTable(c *Ctx, srv *Srv, t c03Table, reqs []creq) { c03RunTableOn(c, srv, nil, t, reqs) }
 
-func c03RunTableOn(c *Ctx, srv *Srv, ctc *tls.Config, t c03Table, reqs []creq) {
+// noRecover: the server was created WithDisablePanicRecovery (handlers must not panic there).
+func c03RunTableOn(c *Ctx, srv *Srv, ctc *tls.Config, t c03Table, reqs []creq, noRecover ...bool) {
 	var mu sync.Mutex
 	var recs []c03Rec
-	panicky := c03TableCtr.Add(1)%5 == 4
+	tableNo := c03TableCtr.Add(1)
+	panicky := tableNo%5 == 4 && len(noRecover) == 0
 	if panicky {
 		c.Count("tables_whose_route_handlers_panic_after_replying", 1)
 	}
@@ -245,8 +247,12 @@ func c03RunTableOn(c *Ctx, srv *Srv, ctc *tls.Config, t c03Table, reqs []creq) {
 			if r.Filter != "" {
 				opts = append(opts, gldap.WithFilter(r.Filter))
 			}
-			if r.Scope != 0 {
+			if r.Scope != 0 || tableNo%2 == 0 {
+				// every other table spells the zero scope out: WithScope(BaseObject) is "no scope criterion" as well
 				opts = append(opts, gldap.WithScope(gldap.Scope(r.Scope)))
+				if r.Scope == 0 {
+					c.Count("search_routes_registered_with_an_explicit_zero_scope", 1)
+				}
 			}
 			err = m.Search(h, opts...)
 		case "ext":
@@ -507,10 +513,22 @@ func c03Tables(c *Ctx) {
 				return
 			}
 			defer tlsSrv.StopWithin(patience)
+			noRecSrv, err := startSrv(SrvCfg{DisableRecover: true}, nil)
+			if err != nil {
+				c.Inconclusive("server start: " + err.Error())
+				return
+			}
+			defer noRecSrv.StopWithin(patience)
 			for {
 				i := int(next.Add(1)) - 1
 				if i >= len(tables) {
 					break
+				}
+				if i%5 == 2 {
+					// the same routing on a server created WithDisablePanicRecovery (how a handler is invoked differs there)
+					c03RunTableOn(c, noRecSrv, nil, tables[i], reqs, true)
+					c.Count("tables_on_a_server_without_panic_recovery", 1)
+					continue
 				}
 				if i%5 == 4 {
 					// the same routing over a TLS listener (the connection state must not change which handler is chosen)
